@@ -516,6 +516,14 @@ func init() {
 				}
 				cs = append(cs, c)
 			}
+			for i := 0; i < 2*raceSoaks(tier); i++ {
+				c := CaseSpec{Kind: "proxy", P: map[string]int64{"rounds": 40}, S: map[string]string{"mode": []string{"socket", "inmem"}[i%2], "race": "1"}}
+				if i >= 2 {
+					c.P["faults"] = 1
+					c.S["mode"] = "socket"
+				}
+				cs = append(cs, c)
+			}
 			return cs
 		},
 		Workers:        8,
